@@ -146,15 +146,17 @@ def pushCells (A : Arith α) (k : Nat) : Nat → CT α → α → α → List (C
     costs more than 1 apart are separated long before) -/
 def pushFuel : Nat := 4096
 
-/-- `push(element)` (constant_delay_queue.py:66-79); `none` = AssertionError / ZeroDivisionError -/
-def Q.push (A : Arith α) (q : Q α) (e : CT α) : Option (Q α) :=
+/-- `push(element)` (constant_delay_queue.py:66-79); `none` = AssertionError / ZeroDivisionError.
+    `asserts = false` is the code without the `assert` statement (`python -O`): used by the driver to
+    tell an AssertionError from any other undefined run. -/
+def Q.push (A : Arith α) (q : Q α) (e : CT α) (asserts : Bool := true) : Option (Q α) :=
   let q1 : Q α := match q.mini with
     | none => { q with mini := some e.cost, start := some e.cost, n := 0 }
     | some _ => q
   match q1.mini with
   | none => none
   | some mini =>
-    if A.lt q1.maxi (A.sub e.cost mini) then none else       -- the `assert`
+    if asserts && A.lt q1.maxi (A.sub e.cost mini) then none else       -- the `assert`
     match pushCells A q1.k pushFuel e (A.sub e.cost mini) q1.maxi q1.cells q1.translation with
     | none => none
     | some (cells, added) =>
